@@ -65,6 +65,20 @@ add("lang", "file", "int vf%d(int, int, ...); int vu%d(void) { return vf%d(1); }
     "struct e%d { int a; struct { int b; int a; }; };", "struct e%d { struct { int y; int x; }; int x; };", "union e%d { int a; float a; };",
     "int q%d(int a, int a);", "int q%d(int a, int (*g)(int), char a) { return 0; }", "double q%d = 0x1.0;", "float q%d = 0x.8f;")
 add("lang", "unit", "#line 1 2\nint x;\n", "# 3 4\nint x;\n")
+# ---- entries added to reach diagnostic sites the evidence listed as uncovered
+add("lang", "file", "struct e%d { static int a; };", "int q%d = sizeof(static int);", "struct e%d { inline int a; };", "int q%d(inline int a);", "enum e%d : { A%d };", "struct ;",
+    "struct 1 q%d;", "enum e%d : int; enum e%d : long { A%d };", "int q%d(_Alignas(8) int a);", "typedef _Alignas(8) int t%d;", "int q%d = sizeof(int x%d);",
+    "_Static_assert(0);", "typedef int gi;", "int gi(void);", "enum { gi };", "struct hs gf;", "int q%d = __builtin_types_compatible_p(1, int);",
+    "char q%d[] = { [0] = 1, .x = 2 };", "int q%d = { [0] = 1 };", "struct hs q%d = { .nosuch%d = 1 };", "union hu q%d = { .zz%d = 1 };")
+add("lang", "block", "{ struct vm%d { int a[gi]; }; }", "{ typeof(nullptr) np%d = 1; }", "gs = *(struct hs2 { int a; } *)gvp;", "gu = gs;", "gi = gi && gs;", "gi = gs || gi;", "gi = gs + 1;",
+    "gi = gs - 1;", "gl = ginc - ginc;", "gi = gd %% 2;", "gi = gd << 1;", "gi = 1 >> gd;", "gi = gd & 1;", "gs++;", "--gs;", "gi = gi->a;", "gi = gs.nosuch%d;", "gi = gsp->nosuch%d;",
+    "gi = _Alignof(int;", "gi = _Generic(gi, int[gi]: 1, default: 2);", "gp = &(gi + 1);", "gp = &gs.b;", "{ typedef int lt%d; gi = lt%d; }", "{ typedef int lt%d; gp = &lt%d; }",
+    "while (gs) ;", "do ; while (gs);", "do ; while (gu);", "if (gs) ;", "gi = gs ? 1 : 2;", "gi = !gs;", "gi = ~gd;", "gi = -gp;", "gi = +gp;", "gi = *gi;", "gi = gi[gi];", "gi = gf + 1;",
+    "{ static int si%d = gi; }", "{ int la%d; static int *sp%d = &la%d; }", "{ static int sj%d = gfn2(1, 2); }")
+add("impl", "unit", "void f(int n, ...) { __builtin_va_list ap; __builtin_va_start(ap, n); int x = __builtin_va_arg(ap, 1); }\n",
+    "void f(int n, ...) { __builtin_va_list ap, aq; __builtin_va_start(ap, n); __builtin_va_copy(aq, 1); }\n", "#define F(x) __VA_ARGS__\nint a = F(1);\n",
+    "#define F(x) x\nint a = F(1, 2);\n", "#define G() 1\nint a = G(2);\n", "double d = 0x.p1;\n", "int x = 0b;\n", "int x = 0x;\n", "double d = 1e+;\n",
+    "int (x) [[maybe_unused]];\n", "int x = 'a\0b';\n", "struct s { int n; int fam[]; } v = { 1, { 2, 3 } };\n")
 add("lang", "file", "struct inc f%d(void); void c%d(void) { f%d(); }", "struct inc (*fp%d)(void); void c%d(void) { fp%d(); }")
 # the address of an object with thread storage duration is not an address constant (C11 6.6p9)
 add("lang", "file", "_Thread_local int tl%d; int *ptl%d = &tl%d;", "static _Thread_local int ts%d[4]; static int *pts%d = &ts%d[1];", "extern _Thread_local int te%d; int *pte%d = &te%d;",
